@@ -3,7 +3,12 @@
    per operation, the result, the user-visible calls (constructor / finaliser / delFunc, in
    order), Cache.Nodes(), Cache.Size(), lru.used and Cache.Capacity(); and at dump steps the
    whole table (ns, key, ref, size, CacheData state, value present) and the LRU recency list.
-   Depends on the model file only. *)
+   Second part: the node table (Conc/CacheTable.v instantiated with the generated constants and
+   murmur32) against the real mHead/mBucket structure — per operation the result (node identity,
+   created / found / none / removed, enumeration order), GetStats' Nodes / GrowCount / ShrinkCount /
+   Buckets, after every change the chain of heads (mask, predecessor, resizeInProgress, overflow, bucket
+   states) and at sampled points the whole layout with node identities — and murmur32 values.
+   Depends on model files and Gen/InstC17.v only. *)
 From GL Require Import Conc.Cache Conc.CacheTable Gen.InstC17.
 
 (* user-visible calls *)
